@@ -187,7 +187,7 @@ def parse_log(text, harnesses):
     return res
 
 
-def run_harnesses(names, cfg=None, use_cache=True, playback=False, timeout=3000, jobs=8, keep=False):
+def run_harnesses(names, cfg=None, use_cache=True, playback=False, timeout=3000, jobs=8, keep=False, _retry=True):
     """run the named harnesses (one scratch copy, one cargo kani invocation); per-harness result cache.
     returns dict(status, harnesses={name: result}, messages, wall_s, cmd, injection)"""
     cfg = cfg or load_config()
@@ -263,6 +263,17 @@ def run_harnesses(names, cfg=None, use_cache=True, playback=False, timeout=3000,
         finally:
             if not keep:
                 shutil.rmtree(d, ignore_errors=True)
+    # a harness of a parallel batch that left no result (killed under memory pressure, interleaved terse output): run it once more alone
+    if _retry and not playback and not keep and out.get("status") in ("tool-error",) and len(names) > 1:
+        missing = [h for h in names if h not in out["harnesses"]]
+        if missing and len(missing) <= 4:
+            for h in missing:
+                r1 = run_harnesses([h], None, use_cache=use_cache, timeout=timeout, jobs=1, _retry=False)
+                if h in r1["harnesses"]:
+                    out["harnesses"][h] = r1["harnesses"][h]
+                    out["messages"].append("harness %s re-run alone after the batch left no result: %s" % (h, r1["harnesses"][h]["status"]))
+            if all(h in out["harnesses"] for h in names):
+                out["status"] = None
     if out["status"] is None:
         st = [r["status"] for r in out["harnesses"].values()]
         if any(x == "failed" for x in st):
